@@ -326,6 +326,11 @@ func runC05(c *eng.Ctx) {
 	}
 	c.Floor(10)
 
+	// recovery trims the epoch cache at both ends (R05.5 above): the trimming itself
+	c.Rule("R02.8", "K5")
+	ruleEpochCacheShapes(c)
+	c.Floor(9)
+
 	// ---- R05.6 lock regions
 	c.Rule("R05.6", "K4")
 	if fn := c.Fn(cl + "(*commitLog).Truncate"); fn != nil {
